@@ -19,10 +19,12 @@ def main():
     na_file = home / "not_applicable.json"
     na = json.loads(na_file.read_text()) if na_file.exists() else {}
     checks, missing = [], []
+    ready_file = home / "ready.txt"
+    ready = set(ready_file.read_text().split()) if ready_file.exists() else None
     for p in props:
         pid = p["id"]
         modpath = home / "vlib" / "props" / f"{pid.lower()}.py"
-        if pid in na or not modpath.exists():
+        if pid in na or not modpath.exists() or (ready is not None and pid not in ready):
             missing.append(pid)
             continue
         mod = importlib.import_module(f"vlib.props.{pid.lower()}")
